@@ -3,5 +3,6 @@ CONSTANTS
   NSH = 2
   NW = 2
   Variant = "fixed"
+  SubRuns <- [NP2Convert] Yes
 INVARIANT Consumed
 CHECK_DEADLOCK FALSE
